@@ -24,10 +24,11 @@ enum { EV_MISS = 1, EV_USE = 2, EV_ENTER_MOD = 10, EV_EXIT_MOD = 11, EV_ENTER_SI
 
 #define NBIG 256
 #define NHUGE 4096
+#define NREC 16384
 #define NSMALL 4
 #define NNTT 64
 
-static MODULE *modBig, *modSmall, *modNtt, *modHuge;
+static MODULE *modBig, *modSmall, *modNtt, *modHuge, *modRec;
 static REIM_FFT_PRECOMP* pReimFft;
 static REIM_IFFT_PRECOMP* pReimIfft;
 static CPLX_FFT_PRECOMP* pCplxFft;
@@ -66,9 +67,9 @@ static void* al(size_t n) {
   return p;
 }
 
-#define NOPS 33
+#define NOPS 34
 static const int op_class[NOPS] = {0, 0, 0, 0, 0, 0, 0, 0, 0, 0, 0, 0, 0, 0, 1, 1, 1, 1, 1, 1, 1, 1,   // 0: module/table, 1: simple
-                                   0, 0, 0, 0, 0, 0, 0, 0, 0, 0, 0};
+                                   0, 0, 0, 0, 0, 0, 0, 0, 0, 0, 0, 0};
 #define OP_FRESH 29   // every thread runs it first, released together by a barrier: first use of a dimension, side by side  // 22..27: a thread builds its OWN object, uses it and deletes it
 
 // runs operation `op` on private data derived from (gseed, op) only; returns the hash of everything it produced
@@ -366,6 +367,18 @@ static uint64_t run_op(int op) {
       free(y); free(v); free(z); free(w);
       break;
     }
+    case 33: {  // transforms in the recursive regime (m = 8192 > 2048) on a shared module, both inverse forms
+      const uint64_t n = NREC;
+      int64_t* a = al(8 * n);
+      VEC_ZNX_DFT* d = al(bytes_of_vec_znx_dft(modRec, 1));
+      VEC_ZNX_BIG* g = al(bytes_of_vec_znx_big(modRec, 1));
+      fill_small(a, n, &s, 30);
+      vec_znx_dft(modRec, d, 1, a, 1, n); h = fnv(h, d, 8 * n);
+      vec_znx_idft(modRec, g, 1, d, 1, 0); h = fnv(h, g, 8 * n);
+      vec_znx_idft_tmp_a(modRec, g, 1, d, 1); h = fnv(h, g, 8 * n);
+      free(a); free(d); free(g);
+      break;
+    }
     case 32: {  // scratch at an odd address (a uint8_t* argument): the result may not depend on it, nor may shared state be used instead
       const uint64_t n = NBIG;
       int64_t *a = al(8 * n), *b = al(8 * n), *r = al(8 * n);
@@ -466,6 +479,7 @@ int main(int argc, char** argv) {
   modBig = new_module_info(NBIG, FFT64);
   modSmall = new_module_info(NSMALL, FFT64);
   modHuge = new_module_info(NHUGE, FFT64);
+  modRec = new_module_info(NREC, FFT64);
   modNtt = new_module_info(NNTT, NTT120);
   pReimFft = new_reim_fft_precomp(32, 0);
   pReimIfft = new_reim_ifft_precomp(32, 0);
